@@ -355,7 +355,7 @@ def _aarch64(ctx):
         if not (isinstance(v, ast.Constant) and v.value is True):
             ctx.node_bad("R4", f, r, "return value is not a literal True/False")
             continue
-        facts = C.facts_at(r)
+        facts = C.norm_fact_nodes(r)
         pos = [e for e, pol in facts if pol]
         name_eq = [e for e in pos if isinstance(e, ast.Compare) and isinstance(e.ops[0], ast.Eq)
                    and {_strip_fold(e.left), _strip_fold(e.comparators[0])} == {pa + ".name", pb + ".name"}]
